@@ -164,6 +164,10 @@ class C04(core.Property):
     yield {'reshuffle': {'N': 8, 'bs': 3, 'seeds': seeds, 'windows': 4}}
     yield {'reshuffle': {'N': 11, 'bs': 16, 'seeds': seeds[:4], 'windows': 5}}
     yield {'reshuffle': {'N': 9, 'bs': 9, 'seeds': seeds[:4], 'windows': 5}}
+    # batches holding two or more whole passes (bs >= 2N): every pass inside one batch is its own shuffle
+    yield {'reshuffle': {'N': 8, 'bs': 16, 'seeds': seeds[:4], 'windows': 6}}
+    yield {'reshuffle': {'N': 7, 'bs': 21, 'seeds': seeds[:4], 'windows': 6}}
+    yield {'reshuffle': {'N': 6, 'bs': 20, 'seeds': seeds[:4], 'windows': 10}}
     if tier == 'thorough':
       Es, Ss = [None, 1, 2, 3, 4], [None, 0, 1, 2, 3, 4, 5, 6, 7, 8]
       for N in range(1, 13):
